@@ -302,10 +302,12 @@ theorem le_promote (c : Ctl) (rs : List Nat) : Le c (promote c rs).1 := by
   | cons r rest ih =>
     simp only [promote]
     split
-    · exact Le.refl c
+    · unfold bumpUnlessEmpty; split
+      · exact Le.refl c
+      · exact Le.of_eq rfl rfl rfl
     · next i _ =>
-      have h1 := takeFrom_le c i
-      generalize takeFrom c i = t at h1
+      have h1 := Le.trans (Le.of_eq (c := c) (c' := bump c) rfl rfl rfl) (takeFrom_le (bump c) i)
+      generalize takeFrom (bump c) i = t at h1
       obtain ⟨c1, ids⟩ := t
       simp only
       split
@@ -444,7 +446,7 @@ theorem polledOp_some {c : Ctl} {item : QItem} {o : Op} (h : polledOp c item = s
     rw [getOp_some h']; exact h'
 
 theorem le_pushLoop (c : Ctl) (rs : List Nat) (fuel : Nat) : Le c (pushLoop c rs fuel).1 := by
-  induction fuel generalizing c with
+  induction fuel generalizing c rs with
   | zero => exact Le.refl c
   | succ n ih =>
     simp only [pushLoop]
@@ -453,14 +455,14 @@ theorem le_pushLoop (c : Ctl) (rs : List Nat) (fuel : Nat) : Le c (pushLoop c rs
     · next item _ _ =>
       have h0 : Le c (dropItem c item.seq) := Le.of_eq rfl rfl rfl
       split
-      · exact Le.trans h0 (ih _)
+      · exact Le.trans h0 (ih _ _)
       · next o ho =>
         have hoid := polledOp_some ho
         split
         · -- region disappeared
           have hg2 := getOp_removeLocked (dropItem c item.seq) o o.id
           exact Le.trans h0 (Le.trans (le_removeLocked _ o) (Le.trans
-            (Le.trans (le_setOp' _ o.id o _ (hg2.trans hoid) (rel_to o .canceled)) (le_bury _ _)) (ih _)))
+            (Le.trans (le_setOp' _ o.id o _ (hg2.trans hoid) (rel_to o .canceled)) (le_bury _ _)) (ih _ _)))
         · next v _ =>
           have h1 : Le (dropItem c item.seq) ((dropItem c item.seq).setOp (o.check v).1) :=
             le_setOp' _ o.id o _ hoid (rel_check o v)
@@ -469,10 +471,8 @@ theorem le_pushLoop (c : Ctl) (rs : List Nat) (fuel : Nat) : Le c (pushLoop c rs
             generalize dispatch ((dropItem c item.seq).setOp (o.check v).1) v false rs = q at h2
             obtain ⟨c3, m⟩ := q
             simp only
-            have h3 := ih c3
-            generalize pushLoop c3 rs n = q4 at h3
-            obtain ⟨c4, m2⟩ := q4
-            exact Le.trans h0 (Le.trans h1 (Le.trans h2 h3))
+            show Le c (pushLoop c3 _ n).1
+            exact Le.trans h0 (Le.trans h1 (Le.trans h2 (ih _ _)))
           · next s _ =>
             split
             · exact Le.trans h0 (Le.trans h1 (Le.of_eq rfl rfl rfl))
@@ -486,10 +486,8 @@ theorem le_pushLoop (c : Ctl) (rs : List Nat) (fuel : Nat) : Le c (pushLoop c rs
               generalize dispatch c2' v false rs = q at h2
               obtain ⟨c3, m⟩ := q
               simp only
-              have h3 := ih c3
-              generalize pushLoop c3 rs n = q4 at h3
-              obtain ⟨c4, m2⟩ := q4
-              exact Le.trans h0 (Le.trans h1 (Le.trans h1' (Le.trans h2 h3)))
+              show Le c (pushLoop c3 _ n).1
+              exact Le.trans h0 (Le.trans h1 (Le.trans h1' (Le.trans h2 (ih _ _))))
 
 theorem le_pushOperators (c : Ctl) (rs : List Nat) : Le c (pushOperators c rs).1 :=
   le_pushLoop c rs _
